@@ -64,7 +64,7 @@ pub fn marker(nonce: u64, k: usize) -> String {
 
 const FILE_NAMES: &[&str] = &[
     "a.txt", "b.txt", "page.html", "about.html", "data.json", "img.png", "photo.jpg", "app.js", "site.css", "doc.pdf", "noext", "archive.tar.gz",
-    "x.y.z.txt", "\u{fc}n\u{ef}.txt", "\u{434}\u{43e}\u{43a}.html", "table.csv", "icon.svg", "notes.md", "UPPER.TXT", "a-b_c.txt", "v1.2.html",
+    "x.y.z.txt", "page.html.gz", "app.js.map", "notes.txt.pdf", "data.json.bak", "photo.png.txt", "\u{fc}n\u{ef}.txt", "\u{434}\u{43e}\u{43a}.html", "table.csv", "icon.svg", "notes.md", "UPPER.TXT", "a-b_c.txt", "v1.2.html",
 ];
 const DIR_NAMES: &[&str] = &["d1", "d2", "docs", "img", "sub", "\u{43f}\u{430}\u{43f}\u{43a}\u{430}", "a.b"];
 
@@ -560,7 +560,8 @@ pub fn small_tree(nonce: u64) -> TreeSpec {
         path: format!("root/{}", name),
         kind: EntryKind::File(Content::Gen { marker: format!("{}\n", marker(nonce, k)), len, seed: nonce.wrapping_add(k as u64), binary: false }),
     };
-    TreeSpec { root, entries: vec![f("probe.txt", 0, 64), f("file.txt", 1, 300), f("page.html", 2, 500), f("d/index.html", 3, 200), f("big.bin", 4, 20000)] }
+    let lit = |name: &str, b: &str| Entry { path: format!("root/{}", name), kind: EntryKind::File(Content::Literal(b.into())) };
+    TreeSpec { root, entries: vec![f("probe.txt", 0, 64), f("file.txt", 1, 300), f("page.html", 2, 500), f("d/index.html", 3, 200), f("big.bin", 4, 20000), lit("empty.txt", ""), lit("one.txt", "1")] }
 }
 
 pub fn probe_request() -> Vec<u8> {
